@@ -1058,3 +1058,10 @@ duf -hide-fs <FS>[,<FS>]...;
         ));
     }
 }
+
+#[cfg(feature = "verif")]
+pub mod verif_hooks {
+    pub fn make_dot_string_constant(s: &str) -> String {
+        super::make_dot_string_constant(s)
+    }
+}
